@@ -1,5 +1,6 @@
 import CaoModel.Compiler
 import CaoModel.Generated.Stdlib
+import CaoModel.Bytecode
 /-! Line protocol of the `cmp` engine: `cmp compile <moduletok>` prints the whole compiled program
     (or the compilation error with its location) in a canonical, sorted form. -/
 namespace Cao.Driver
@@ -25,6 +26,58 @@ def showCErr : CErr → String
   | .err k none => "err:" ++ k.name ++ "@-"
   | .panic w => "panic:" ++ w
 
+end Cao.Driver
+
+namespace Cao.Driver
+open Cao Cao.Compiler
+
+def parseHexBytes (s : String) : Array UInt8 :=
+  let cs := s.toList
+  let rec go : List Char → Array UInt8 → Array UInt8
+    | a :: b :: r, acc => go r (acc.push (UInt8.ofNat (((Val.hexVal? a).getD 0) * 16 + ((Val.hexVal? b).getD 0))))
+    | _, acc => acc
+  go cs #[]
+
+def field (args : List String) (key : String) : String :=
+  match args.find? (fun a => a.startsWith (key ++ "=")) with
+  | some a => (a.drop (key.length + 1)).toString
+  | none => ""
+
+def listItems (s : String) : List String :=
+  let inner := ((s.drop 1).toString.dropEnd 1).toString
+  if inner.isEmpty then [] else inner.splitOn ","
+
+def parseTrace (s : String) : Option Trace :=
+  match s.splitOn "|" with
+  | [ns, idx] =>
+    match idx.splitOn "." with
+    | f :: rest =>
+      some { ns := if ns.isEmpty then [] else ns.splitOn ".", function := f.toNat?.getD 0,
+             indices := rest.filterMap (·.toNat?) }
+    | [] => none
+  | _ => none
+
+def hexToString (h : String) : String :=
+  (String.fromUTF8? (ByteArray.mk (parseHexBytes ((h.drop 1).toString)))).getD ""
+
+/-- parse the canonical program line printed by `showProgram` / the harness' `show_program` -/
+def parseProgram (args : List String) : Program :=
+  let pair (s : String) : Option (Nat × String) :=
+    match s.splitOn ":" with
+    | a :: rest => a.toNat?.map (fun n => (n, ":".intercalate rest))
+    | [] => none
+  { bytecode := parseHexBytes (field args "bc"),
+    data := parseHexBytes (field args "data"),
+    labels := (listItems (field args "labels")).filterMap (fun s => (pair s).bind (fun (h, p) => p.toNat?.map (fun p => (UInt32.ofNat h, p)))),
+    varIds := (listItems (field args "ids")).filterMap (fun s => (pair s).bind (fun (h, p) => p.toNat?.map (fun p => (UInt32.ofNat h, p)))),
+    varNames := (listItems (field args "names")).filterMap (fun s => (pair s).map (fun (h, n) => (UInt32.ofNat h, hexToString n))),
+    trace := (listItems (field args "trace")).filterMap (fun s => (pair s).bind (fun (pos, t) => (parseTrace t).map (fun t => (pos, t)))) }
+
+def wfLine (p : Program) : String :=
+  match Bytecode.wfReason p with
+  | none => "wf:ok n=" ++ toString ((Bytecode.decodeAll p.bytecode (p.bytecode.size + 1) 0 []).toOption.getD []).length
+  | some r => "wf:" ++ r
+
 def cmpStep (args : List String) : String :=
   match args with
   | ["compile", m] =>
@@ -34,6 +87,16 @@ def cmpStep (args : List String) : String :=
       match compile m Gen.stdlib with
       | .ok p => showProgram p
       | .error e => showCErr e
+  | ["wf", m] =>
+    -- well-formedness of what the *model* compiler emits (equal to the real output whenever
+    -- the `compile` line agrees)
+    match Module.ofTok? m with
+    | none => "bad-op"
+    | some m =>
+      match compile m Gen.stdlib with
+      | .ok p => wfLine p
+      | .error _ => "wf:n/a"
+  | "wfprog" :: "ok" :: rest => wfLine (parseProgram rest)
   | _ => "bad-op"
 
 end Cao.Driver
